@@ -18,6 +18,15 @@ W2_COMPONENTS = {
 }
 
 PROPS = {
+    "C14": {
+        "level": "exploration",
+        "quick_runs": 8000, "quick_budget_s": 60,
+        "thorough_budget_s": 600,
+        "rule": "C14 scenario: real Forward.exchange (and QuickConfigureExec tag subsets) over 1-5 scripted in-memory upstreams with per-invocation outcome {NOERROR,NXDOMAIN,SERVFAIL,REFUSED,error,garbage,never} and completion instant (ties, 5 s boundary), concurrent in {-1,0,1,2,3,5}, caller deadline/cancel at chosen instants, PRNG start index.",
+        "components": {"real": ["plugin/executable/forward (exchange, QuickConfigureExec, copyPayload; instrumented)", "pkg/query_context", "pkg/pool with poisoning allocator", "miekg/dns"],
+                       "stub": ["upstream.Upstream -> scripted in-memory upstreams (C01/C07 cover the real transports)", "clock, scheduler, rand.IntN -> simulator"]},
+        "cfg_dist_keys": ["upstreams", "concurrent", "calls"],
+    },
     "C10": {
         "level": "exploration",
         "race": True,
